@@ -109,7 +109,8 @@ def extract_region(fn, test_text, which=0):
                 blk = getattr(n, fld, None)
                 if isinstance(blk, list):
                     for k, st in enumerate(blk):
-                        if isinstance(st, ast.stmt) and ast.unparse(st).split('\n')[0] == first:
+                        if isinstance(st, ast.stmt) and (ast.unparse(st).split('\n')[0] == first or
+                                                         (first.endswith(' =') and ast.unparse(st).startswith(first + ' '))):
                             hits.append((st, blk[k:]))
         if len(hits) <= which:
             raise ContractError('region %r not found in %s' % (test_text, fn.name))
@@ -2457,6 +2458,21 @@ def _sorted(ex, seq, key=None, reverse=False):
     return out
 
 
+def _any(ex, seq):
+    if not isinstance(seq, Tup):
+        raise Unsupported('any(%r)' % (seq,))
+    return b_or(*[truthy(i) for i in seq.items]) if seq.items else False
+
+
+def _frozenset(ex, seq=None):
+    """frozenset of concrete ints / strings (the items of a fully unrolled comprehension)"""
+    items = [] if seq is None else (seq.items if isinstance(seq, Tup) else None)
+    if items is None or not all(isinstance(i, (int, str)) for i in items):
+        raise Unsupported('frozenset(%r)' % (seq,))
+    return Obj('frozenset', {'members': Tup(sorted(set(items), key=repr))}, {'__contains__': lambda ex2, self, x: concrete(x) in set(items)},
+               name='frozenset')
+
+
 def _reversed(ex, seq):
     if not isinstance(seq, Tup):
         raise Unsupported('reversed(%r)' % (seq,))
@@ -2636,6 +2652,7 @@ def _dict_ctor(ex, d=None, **kw):
 
 BUILTINS = {
     'len': FnV(_len, 'len'), 'min': FnV(_minmax('min'), 'min'), 'max': FnV(_minmax('max'), 'max'),
+    'any': FnV(lambda ex, seq: _any(ex, seq), 'any'), 'frozenset': FnV(lambda ex, seq=None: _frozenset(ex, seq), 'frozenset'),
     'map': FnV(lambda ex, f, seq: _map(ex, f, seq), 'map'), 'sorted': FnV(lambda ex, seq, key=None, reverse=False: _sorted(ex, seq, key, reverse), 'sorted'), 'reversed': FnV(lambda ex, seq: _reversed(ex, seq), 'reversed'),
     'abs': FnV(_abs, 'abs'), 'int': FnV(_int, 'int'), 'float': FnV(_float, 'float'), 'bool': FnV(_bool, 'bool'), 'ord': FnV(_ord, 'ord'),
     'isinstance': FnV(_isinstance, 'isinstance'), 'tuple': FnV(_tuple, 'tuple'), 'list': FnV(_list, 'list'),
